@@ -23,6 +23,7 @@ type Trace struct {
 	Scenario string          `json:"scenario"`
 	Tier     string          `json:"tier,omitempty"`
 	Kind     string          `json:"kind,omitempty"` // "seed": re-run the seed (crash/hang that took the worker down)
+	Engine   string          `json:"engine,omitempty"` // "netsimx": recorded by the build with automatic schedule points (its tape counts those too)
 	Cfg      json.RawMessage `json:"cfg"`
 	Steps    []Step          `json:"steps"`
 	Tape     []byte          `json:"yield_tape,omitempty"`
@@ -31,6 +32,16 @@ type Trace struct {
 	Sig      string          `json:"signature,omitempty"`
 	LogHash  string          `json:"loghash,omitempty"`
 	Log      []string        `json:"event_log,omitempty"`
+}
+
+// engineName tells the two builds of this package apart: "netsimx" is compiled
+// with the automatic schedule points of tools/autoyield (the runner names the
+// binary), "" is the plain build.
+func engineName() string {
+	if strings.Contains(filepath.Base(os.Args[0]), "netsimx") {
+		return "netsimx"
+	}
+	return ""
 }
 
 // RunOut is the outcome of one simulated run.
@@ -198,6 +209,9 @@ func Worker(t *testing.T) {
 		if tr.Scenario != "" && scenarios[tr.Scenario] != nil {
 			sc = scenarios[tr.Scenario]
 		}
+		if tr.Kind != "seed" && tr.Engine != engineName() {
+			t.Fatalf("replay: recorded by engine build %q, this is %q", tr.Engine, engineName())
+		}
 		var o *RunOut
 		if tr.Kind == "seed" {
 			rng := sim.NewRand(sim.Mix(tr.Seed))
@@ -328,7 +342,7 @@ func Worker(t *testing.T) {
 			if len(lg) > 400 {
 				lg = lg[len(lg)-400:]
 			}
-			tr := &Trace{Property: env.Prop, Seed: seed, Scenario: scName, Tier: env.Tier, Cfg: o.Cfg, Steps: steps, Tape: tape,
+			tr := &Trace{Property: env.Prop, Seed: seed, Scenario: scName, Tier: env.Tier, Engine: engineName(), Cfg: o.Cfg, Steps: steps, Tape: tape,
 				Class: final.Viol.Class, Detail: final.Viol.Detail, Sig: final.Viol.Sig, LogHash: fmt.Sprintf("%016x", final.Hash), Log: lg}
 			path, err := writeTrace(env.Dir, tr)
 			if err != nil {
